@@ -81,7 +81,7 @@ def check(rep, model, tier):
     from . import c03
     before = len(rep.instances)
     c03.check(rep, model, tier)
-    rep.instances[before:] = [dict(i, rule='MID-LOCAL') for i in rep.instances[before:] if i['rule'] in ('WINDOW', 'MID-DEF')]
+    rep.instances[before:] = [dict(i, rule='MID-LOCAL') for i in rep.instances[before:] if i['rule'] in ('WINDOW',)]
     before = len(rep.instances)
     c02.check(rep, model, tier)
     rep.instances[before:] = [i for i in rep.instances[before:] if i['rule'] in ('BOUNDARY', 'PAD-AGREE', 'CROSSING')]
@@ -90,17 +90,20 @@ def check(rep, model, tier):
             i['rule'] = 'BOUNDARY'
     # the options stay in force on every call: the pipeline never writes through the caller's option dictionaries
     summ, det, rounds, ro = common.effects(model)
-    for name in ('compute_features', 'compute_shape_features', 'compute_cyclepoints', 'find_extrema'):
+    for name in ('compute_features', 'compute_shape_features'):
         fn = model.find(name)
-        hits = sorted((ln, c, via) for (w, ln, c, via) in det[fn.qual].mut if w[0] == 'P')
+        # only the dictionary that carries the segmentation options itself (boundary, first_extrema): its nested filter options
+        # cannot move an index across the boundary
+        opt = [p for p in fn.params + ([fn.kwarg] if fn.kwarg else []) if p == 'find_extrema_kwargs']
+        hits = sorted((ln, c, via) for (w, ln, c, via) in det[fn.qual].mut if w[0] == 'P' and w[1] in opt and w[1] in summ[fn.qual].get('direct', ()))
         if hits:
             rep.violation('OPTIONS-STABLE', name, f'{fn.path}:{hits[0][0]} {name}', expected='the caller\'s options (boundary, filter length, ...) are not altered by a call',
                           found='; '.join(f'{c}' + (f' [via {v}]' if v else '') for _, c, v in hits[:3]) + ': a later call with the same dictionary runs with different options')
         else:
             rep.ok('OPTIONS-STABLE', name, f'{fn.path}:{fn.node.lineno} {name}', found='no write through an option dictionary')
     rep.rules = {k: v for k, v in rep.rules.items() if k in ('ROW-OFFSETS', 'PAIRING', 'OPT-EXCL', 'EFF-ROVIEW', 'CALL-BIND', 'MID-LOCAL', 'BOUNDARY', 'CROSSING')}
-    rep.rule('OPTIONS-STABLE', 'compute_features / compute_shape_features / compute_cyclepoints / find_extrema never write through the option dictionaries they are given, so the '
-                               'requested boundary and filter length hold on every call that reuses them (shared with C15)')
+    rep.rule('OPTIONS-STABLE', 'compute_features / compute_shape_features never write to the find_extrema_kwargs dictionary they are given (the one carrying boundary), so the '
+                               'requested boundary holds on every call that reuses it (shared with C15)')
     rep.floors = {k: v for k, v in rep.floors.items() if k in ('call sites bound',)}
     rep.floor('rule instances', len(rep.instances), 40)
 
@@ -122,15 +125,19 @@ def opt_excl(rep, model):
         kw = dict(ev[0]['kwargs'])
         got = (kw.get('n_cycles', ev[0]['args'][4] if len(ev[0]['args']) > 4 else NONE), kw.get('n_seconds', ev[0]['args'][5] if len(ev[0]['args']) > 5 else NONE))
         fkw = dict(flt[0]['kwargs'])
-        same = (fkw.get('n_cycles', NONE), fkw.get('n_seconds', NONE)) == ((want[0] if label not in ('None', 'empty') else NONE), want[1])
-        if got == want and same:
-            rep.ok('OPT-EXCL', f'filter_kwargs={label}', ev[0]['where'] or site, found=f'pad length from (n_cycles={T.show(got[0])}, n_seconds={T.show(got[1])}); filter gets the same specification')
-        elif got[0] != NONE and got[1] != NONE:
+        fspec = (fkw.get('n_cycles', NONE), fkw.get('n_seconds', NONE))
+        # the filter's own default when neither is given is three cycles (neurodsp design_fir_filter)
+        same = fspec == got or (fspec == (NONE, NONE) and got == (C(3), NONE))
+        if got[0] != NONE and got[1] != NONE:
             rep.violation('OPT-EXCL', f'filter_kwargs={label}', ev[0]['where'] or site, expected='never both n_cycles and n_seconds (the callee raises ValueError for the pair)',
                           found=f'n_cycles={T.show(got[0])}, n_seconds={T.show(got[1])}')
+        elif got == (NONE, NONE):
+            rep.violation('OPT-EXCL', f'filter_kwargs={label}', ev[0]['where'] or site, expected='one of n_cycles / n_seconds (the callee raises ValueError without a length)', found='neither')
+        elif not same:
+            rep.violation('OPT-EXCL', f'filter_kwargs={label}', ev[0]['where'] or site, expected='the pad length and the filter use the same length specification',
+                          found=f'pad ({T.show(got[0])}, {T.show(got[1])}); filter ({T.show(fspec[0])}, {T.show(fspec[1])})')
         else:
-            rep.violation('OPT-EXCL', f'filter_kwargs={label}', ev[0]['where'] or site, expected=f'(n_cycles, n_seconds) = ({T.show(want[0])}, {T.show(want[1])}) for the pad and the same specification for the filter',
-                          found=f'pad ({T.show(got[0])}, {T.show(got[1])}); filter {({k: T.show(v) for k, v in fkw.items() if k in ("n_cycles", "n_seconds")})}')
+            rep.ok('OPT-EXCL', f'filter_kwargs={label}', ev[0]['where'] or site, found=f'pad length from (n_cycles={T.show(got[0])}, n_seconds={T.show(got[1])}); filter gets the same specification')
 
 
 def call_bind(rep, model):
